@@ -65,3 +65,25 @@ Theorem C06_key_clash_across_types_refuted :
   exists d1 d2, merge_results [ex_animals; ex_nick; ex_age] = Ok d1 /\ merge_results [ex_animals; ex_age; ex_nick] = Ok d2 /\ ~ req d1 d2.
 Proof. split; [exact ex_key_clash_not_independent|exact ex_key_clash_order_dependent]. Qed.
 Print Assumptions C06_key_clash_across_types_refuted.
+
+(* From the merged tree to what the client receives (Proofs/ShapeOrder.v): the null-propagation pass and the response writer
+   read the tree only through map lookups and json.Marshal writes map keys in byte order, so equal Go values give the same
+   null-propagation errors and the SAME RESPONSE (as ordered JSON), for every schema and selection.  [shaped] is what the
+   whole-gateway model does with the merged tree: *)
+From V Require Import Gql.RefExec Model.Shape Model.Gateway Proofs.ShapeOrder.
+Theorem C06_shaped_is_the_gateways_response : forall G fschema W op vars P max fuel oc merged,
+  gateway G fschema W op vars P max fuel = Ok oc -> oc_merged oc = Some merged ->
+  r_data (oc_response oc) = option_map fst (shaped fuel fschema (oc_op oc) merged).
+Proof. exact gateway_shaped. Qed.
+Print Assumptions C06_shaped_is_the_gateways_response.
+
+(* C06 for plans with one root step, end to end after the downstream calls: for every arrival order of the lookup results
+   whose inverted pairs are independent, the merge fails or succeeds alike, and the response data and the null-propagation
+   errors are identical — every schema, selection and fuel.  [wf]: decoded JSON objects have each key once. *)
+Theorem C06_response_independent_of_arrival_order_partial : forall r0 rs rs' d, Forall is_child rs -> Permutation rs rs' ->
+  (forall x y, before x y rs -> before y x rs' -> indep_res x y) ->
+  wf (er_data r0) -> Forall (fun r => wf (er_data r)) rs ->
+  merge_results (r0 :: rs) = Ok d ->
+  exists d', merge_results (r0 :: rs') = Ok d' /\ forall fuel c ss, shaped fuel c ss d = shaped fuel c ss d'.
+Proof. exact response_order_irrelevant. Qed.
+Print Assumptions C06_response_independent_of_arrival_order_partial.
